@@ -169,7 +169,10 @@ def _ops_job(job):
         mt = M.model_ops_batch(M.E_TRIE_OPS, seqs, 1)
         ms = M.model_ops_batch(M.E_DICT_OPS, seqs, 1)
         for ops, a, b in zip(seqs, mt, ms):
-            it, is_, problems = M.impl_ops(MQTTMatcher, ops, 1)
+            try:
+                it, is_, problems = M.impl_ops(MQTTMatcher, ops, 1)
+            except Exception as e:
+                it, is_, problems = [], [], [(0, f"the implementation raised {type(e).__name__}: {e}")]
             st["seqs"] += 1
             st["ops"] += len(ops)
             live, nt = set(), False
@@ -326,7 +329,10 @@ def run_random(ctx, out):
     mt = M.model_ops_batch(M.E_TRIE_OPS, seqs, 0)
     ms = M.model_ops_batch(M.E_DICT_OPS, seqs, 0)
     for ops, a, b in zip(seqs, mt, ms):
-        it, is_, problems = M.impl_ops(MQTTMatcher, ops, 0)
+        try:
+            it, is_, problems = M.impl_ops(MQTTMatcher, ops, 0)
+        except Exception as e:
+            it, is_, problems = [], [], [(0, f"the implementation raised {type(e).__name__}: {e}")]
         out.cases += 1
         out.validated += 1
         out.stat("random:op_sequences")
@@ -335,9 +341,59 @@ def run_random(ctx, out):
         # topics here are valid names, so the sorted results must equal the spec's
         compare_ops(ops, it, is_, problems, a, b, out.disagreements, out.violations)
     if seqs:
-        ops = seqs[0][:8]
-        it, _, _ = M.impl_ops(MQTTMatcher, ops, 0)
-        out.sample({"ops": [list(o) for o in ops], "impl_trace(result,dump per op)": it})
+        out.sample(readable_sample(MQTTMatcher, seqs[0][:10]))
+
+
+def readable_sample(MQTTMatcher, ops):
+    """ops with the implementation's result for each, and the stored filters at the end"""
+    m = MQTTMatcher()
+    res = []
+    for o in ops:
+        try:
+            if o[0] == "set":
+                m[o[1]] = o[2]
+                r = None
+            elif o[0] == "del":
+                del m[o[1]]
+                r = None
+            elif o[0] == "get":
+                r = m[o[1]]
+            else:
+                r = list(m.iter_match(o[1]))
+        except KeyError:
+            r = "KeyError"
+        res.append(list(o) + ["->", r])
+    return {"ops_with_impl_results": res, "stored_filters_after": dict(M.stored(m._root))}
+
+
+def shrink_ops(v):
+    """drop operations while the implementation still differs from the reference dictionary + spec_match"""
+    _, MQTTMatcher = _matcher_api()
+    ops = [tuple(o) for o in v["case"]["ops"]]
+
+    def fails(oo):
+        try:
+            _, is_, problems = M.impl_ops(MQTTMatcher, oo, 0)
+        except Exception:
+            return True
+        return bool(problems) or is_ != M.model_ops_batch(M.E_DICT_OPS, [oo], 0)[0]
+    if not fails(ops):
+        return v
+    i = 0
+    while i < len(ops):
+        cand = ops[:i] + ops[i + 1:]
+        if cand and fails(cand):
+            ops = cand
+        else:
+            i += 1
+    v = dict(v)
+    v["case"] = {"kind": "ops", "ops": [list(o) for o in ops]}
+    try:
+        sample = readable_sample(MQTTMatcher, ops)
+    except Exception as e:
+        sample = f"raised {type(e).__name__}: {e}"
+    v["what"] = f"minimised: {sample}; reference dictionary + spec_match trace: {M.model_ops_batch(M.E_DICT_OPS, [ops], 0)[0]} :: " + v["what"][:300]
+    return v
 
 
 def run(ctx, out):
@@ -360,6 +416,10 @@ def run(ctx, out):
         T5 = [s for s in S5 if M.py_valid_topic(s)]
         run_pairs(out, F5, T5, "pairs_valid_depth<=5")
         exhaustive["pairs_valid_depth"] = 5
+    # case sensitivity / literal comparison: a second small alphabet
+    SC = M.strings_upto(3, ["a", "A", "ab", "+", "#"])
+    run_pairs(out, SC, SC, "pairs_case_depth<=3")
+    exhaustive["pairs_case_alphabet_depth"] = 3
     # validity predicates of the model against an independent reading, on the depth-3 strings
     S3 = M.strings_upto(3)
     args = [len(S3)] + [x for f in S3 for x in M.enc_str(f)] + [len(S3)] + [x for t in S3 for x in M.enc_str(t)]
@@ -385,14 +445,19 @@ def run(ctx, out):
     if not ctx.quick:
         run_opseqs(out, 6, UNIVERSE6, "u6", "ops_u6_len6")
         exhaustive["op_sequences_2"] = {"universe": UNIVERSE6, "mutations": 6}
-    ops = with_probes(seq_from_index(1234, L, UNIVERSE7), UNIVERSE7)[:10]
-    it, _, _ = M.impl_ops(MQTTMatcher, ops, 1)
-    out.sample({"ops": [list(o) for o in ops], "impl_trace(result; dump after set/del)": it})
+    out.sample(readable_sample(MQTTMatcher, with_probes(seq_from_index(1234, L, UNIVERSE7), UNIVERSE7)[:12]))
 
     # (3) random
     run_random(ctx, out)
     out.exhaustive = True
     out.notes.append(f"exhaustive bounds completed: {exhaustive}")
+    for i, v in enumerate(out.violations):
+        if v["case"].get("kind") == "ops":
+            try:
+                out.violations[i] = shrink_ops(v)
+            except Exception as e:
+                out.notes.append(f"shrinking failed: {e}")
+            break
 
 
 # ---------------------------------------------------------------- replay
